@@ -19,6 +19,16 @@ func init() {
 	}
 }
 
+// driverOnly lists the models that stand for the file system: they apply to
+// calls made by the command-line driver (package main), which may read the
+// files it is given. The same call made by library code is not modelled and
+// so reaches the confinement monitor (C10).
+var driverOnly = map[string]bool{"io/ioutil.ReadFile": true, "os.ReadFile": true}
+
+func callerIsDriver(caller *frame) bool {
+	return caller != nil && caller.fn != nil && caller.fn.Pkg != nil && caller.fn.Pkg.Pkg != nil && caller.fn.Pkg.Pkg.Name() == "main"
+}
+
 // extReadFile returns the content the harness registered for the path
 // (sv.File); any other path does not exist.
 func extReadFile(fr *frame, args []value) value {
